@@ -893,7 +893,7 @@ func (r *srvRun) rawFail(st map[string]any, ev map[string]any) error {
 func decorateScript(sc *srvScript, seed int64) {
 	rng := newRng(seed)
 	name := func() []int {
-		n := []int{0, 1, 5, 12, 13, 14, 20, 31}[rng.Intn(8)]
+		n := []int{0, 1, 5, 12, 13, 14, 20, 31, 32, 40, 255}[rng.Intn(11)]
 		b := make([]int, n)
 		for i := range b {
 			b[i] = 33 + rng.Intn(94) // printable ASCII without space
